@@ -510,9 +510,13 @@ impl<const BITS: usize, const LIMBS: usize> TryFrom<f64> for Uint<BITS, LIMBS> {
     #[inline]
     fn try_from(value: f64) -> Result<Self, Self::Error> {
         if value.is_nan() {
+            #[cfg(feature = "recmo_uint_verif")]
+            crate::verif_hooks::hit(180);
             return Err(ToUintError::NotANumber(BITS));
         }
         if value < 0.0 {
+            #[cfg(feature = "recmo_uint_verif")]
+            crate::verif_hooks::hit(181);
             let wrapped = match Self::try_from(value.abs()) {
                 Ok(n) | Err(ToUintError::ValueTooLarge(_, n)) => n,
                 _ => Self::ZERO,
@@ -523,6 +527,8 @@ impl<const BITS: usize, const LIMBS: usize> TryFrom<f64> for Uint<BITS, LIMBS> {
         #[allow(clippy::cast_precision_loss)] // BITS is small-ish
         let modulus = (Self::BITS as f64).exp2();
         if value >= modulus {
+            #[cfg(feature = "recmo_uint_verif")]
+            crate::verif_hooks::hit(182);
             let wrapped = match Self::try_from(value % modulus) {
                 Ok(n) | Err(ToUintError::ValueTooLarge(_, n)) => n,
                 _ => Self::ZERO,
@@ -530,6 +536,8 @@ impl<const BITS: usize, const LIMBS: usize> TryFrom<f64> for Uint<BITS, LIMBS> {
             return Err(ToUintError::ValueTooLarge(BITS, wrapped)); // Wrapping
         }
         if value < 0.5 {
+            #[cfg(feature = "recmo_uint_verif")]
+            crate::verif_hooks::hit(183);
             return Ok(Self::ZERO);
         }
         // All non-normal cases should have been handled above
@@ -539,8 +547,12 @@ impl<const BITS: usize, const LIMBS: usize> TryFrom<f64> for Uint<BITS, LIMBS> {
         // already integers; there `value + 0.5` is not representable and would
         // round to the even neighbour, changing odd integers.
         let value = if value >= 4_503_599_627_370_496.0 {
+            #[cfg(feature = "recmo_uint_verif")]
+            crate::verif_hooks::hit(184);
             value
         } else {
+            #[cfg(feature = "recmo_uint_verif")]
+            crate::verif_hooks::hit(185);
             value + 0.5
         };
 
@@ -558,18 +570,26 @@ impl<const BITS: usize, const LIMBS: usize> TryFrom<f64> for Uint<BITS, LIMBS> {
         // Convert mantissa * 2^(exponent - 52) to Uint
         #[allow(clippy::cast_possible_truncation)] // exponent is small-ish
         if exponent as usize > Self::BITS + 52 {
+            #[cfg(feature = "recmo_uint_verif")]
+            crate::verif_hooks::hit(186);
             // Wrapped value is zero because the value is extended with zero bits.
             return Err(ToUintError::ValueTooLarge(BITS, Self::ZERO));
         }
         if exponent <= 52 {
+            #[cfg(feature = "recmo_uint_verif")]
+            crate::verif_hooks::hit(187);
             // Truncate mantissa
             Self::try_from(mantissa >> (52 - exponent))
         } else {
             #[allow(clippy::cast_possible_truncation)] // exponent is small-ish
             let exponent = exponent as usize - 52;
             let n = Self::try_from(mantissa)?;
+            #[cfg(feature = "recmo_uint_verif")]
+            crate::verif_hooks::hit(188);
             let (n, overflow) = n.overflowing_shl(exponent);
             if overflow {
+                #[cfg(feature = "recmo_uint_verif")]
+                crate::verif_hooks::hit(189);
                 Err(ToUintError::ValueTooLarge(BITS, n))
             } else {
                 Ok(n)
